@@ -19,17 +19,25 @@ EXPLANATION = (
     "= union of all branches in place, repetition = body{m,n} with the token's own bounds, concatenation in order; "
     "(anchor/delegate) the pattern is ^...$ and both Program impls match with the program compiled from their own tree; "
     "(bounds) the parser's bound specification of a repetition, evaluated from its THIR with a model of the nom combinators "
-    "(sa/nommodel.py), gives the documented (lower, upper) for every documented form: `<a>` = 0.., `<a:>` = 1.., `:n` = n..n, `:n,` = n.., `:n,m`.")
-RULES = "C01.whole (TABLE on a catalogue: program vs. reference language), C01.leaf, C01.tree, C01.flag, C01.dotall, C01.homo, C01.anchor (EMIT), C01.delegate (SIBLING+PROV), C01.bounds (TABLE: parser function vs. README)"
+    "(sa/nommodel.py), gives the documented (lower, upper) for every documented form: `<a>` = 0.., `<a:>` = 1.., `:n` = n..n, `:n,` = n.., `:n,m`; "
+    "(parse) the whole parser (token::parse::parse, evaluated from its THIR with every nom / pori combinator replaced by the model in sa/nommodel.py: "
+    "which combinators are composed in which order, the token-building closures, the flag state threaded through the input and the "
+    "beginning-of-expression test are wax's own) is run on a catalogue of ~12 700 texts - every sequence of up to three atoms (literals, escapes, "
+    "multi-byte text, `?`, `*`, `$`, `/`, `**`, classes, `(?i)`, `(?-i)`), every atom inside every alternation / repetition form between six left and "
+    "six right contexts, the README's examples, ~60 malformed texts - and compared with a reference reading written from the README "
+    "(sa/rules/parseref.py): accepted exactly when in the documented syntax, and the same token tree: kinds, unescaped literal text, the case flag in "
+    "force at each literal (flags apply in text order, also into and out of groups), class members / ranges / negation, bounds, which separators a "
+    "tree wildcard absorbs.  Texts on which the README is silent (a flag between the separator and the stars of a tree wildcard) are skipped.")
+RULES = "C01.whole (TABLE on a catalogue: program vs. reference language), C01.leaf, C01.tree, C01.flag, C01.dotall, C01.homo, C01.anchor (EMIT), C01.delegate (SIBLING+PROV), C01.bounds (TABLE: parser function vs. README), C01.parse (TABLE on a text catalogue: parser vs. reference reading)"
 
 
 def run(ctx):
     F = ctx.facts()
     R = ctx.report
-    R.assume("regex crate semantics (classes, `.`, flags scoping, quantifiers); the parser delivers the tokens the text denotes (C18 decides the literal/escape sets)")
+    R.assume("regex crate semantics (classes, `.`, flags scoping, quantifiers); nom / pori combinators behave as modelled in sa/nommodel.py (written from the sources of nom 7.1.3 and pori)")
     R.assume("Unix configuration: separator class `/`; cfg(windows) arms are not analysable on this image")
-    R.undecided("the nom grammar beyond the literal / escape sets (class archetypes, tree-wildcard prefix/postfix absorption, "
-                "flag threading); whole-expression language equality follows by induction from the decided clauses + regex semantics")
+    R.undecided("the parser outside the text catalogue (C01.parse decides ~12 700 texts: all short sequences and one level of every group form); "
+                "whole-expression language equality follows by induction from the decided clauses + regex semantics")
     encoder.rule_leaf(F, R)
     encoder.rule_tree(F, R)
     encoder.rule_whole(F, R)
@@ -40,6 +48,8 @@ def run(ctx):
     rule_bounds(F, R)
     from . import exhaust
     exhaust.report_query(F, R, "C01.whole", ctx.tier, "semantics", 15000, 4000)
+    from . import parsecat
+    parsecat.report(F, R, "C01.parse", ctx.tier, ("tokens", "accepts", "rejects"), 12000)
 
 
 def rule_delegate(F, R):
